@@ -94,7 +94,7 @@ CLAIMED = {
  'C18': dict(
     text='Bounded symbolic verification of inference I/O: sample_initial_parameters of hierarchical and filter posteriors over the C02/C13 compositions with a prior stub and the RNG stub (shape, population-level entries = the prior draw of the row, individual-level entries have the population law at the row\'s own population values, finite population log-density at the initial point, construction never raises); SamplingController._format_chains on a symbolic chain array (every name once, population-level = c[:,:,k], individual-level = c[:,:,k(name, individual)]); read-back through compute_pointwise_loglikelihood (individual posteriors) and PosteriorPredictiveModel (joint raw row of the selected individual).',
     design='5 C18',
-    note='Trusted: RNG stub, prior stub, xarray object arrays, z3. Outside: the optimisation result table, running the samplers, arviz conversion; hierarchical pointwise evaluation is NotImplemented in chi.',
+    note='Trusted: RNG stub, prior stub, xarray object arrays, z3. OptimisationController.run over a stub optimiser returning symbolic estimates / scores: every row pairs estimate, name, ID, score, run. Outside: running the optimisers / samplers themselves, arviz conversion; hierarchical pointwise evaluation is NotImplemented in chi.',
     technique='symbolic execution with RNG/prior stubs + term inspection + SMT decisions of per-entry laws'),
  'C17': dict(
     text='CrossHair (symbolic execution of Python with z3) on contract functions generated per run: the bodies build the real chi objects from symbolic small integers (sub-model kinds, dimensions, numbers of individuals before/after set_n_ids, fixed-parameter masks, covariate selections, numbers of outputs / times / simulated individuals) and require n_parameters = number of names = length of IDs = accepted vector length = gradient length, IDs marking exactly the individual-level entries, distinct names with IDs, sub-model names in documented order; "Confirmed over all paths" for every condition is the exhaustive verdict for the stated ranges; each body has a reachability twin.',
